@@ -1393,6 +1393,17 @@ func ext۰reflect۰MapIter۰Value(fr *frame, args []value) value {
 	return makeRV(st.m.t.Underlying().(*types.Map).Elem(), st.cur.val, nil, st.m.ro)
 }
 
+// SetIterKey / SetIterValue: v.Set(iter.Key()) / v.Set(iter.Value()) without the allocation.
+func ext۰reflect۰Value۰SetIterKey(fr *frame, args []value) value {
+	k := ext۰reflect۰MapIter۰Key(fr, []value{args[1]})
+	return ext۰reflect۰Value۰Set(fr, []value{args[0], k})
+}
+
+func ext۰reflect۰Value۰SetIterValue(fr *frame, args []value) value {
+	v := ext۰reflect۰MapIter۰Value(fr, []value{args[1]})
+	return ext۰reflect۰Value۰Set(fr, []value{args[0], v})
+}
+
 func ext۰reflect۰Value۰NumMethod(fr *frame, args []value) value {
 	r := rv(args[0])
 	if !r.valid {
